@@ -317,6 +317,7 @@ def cases(ctx):
                     pay += [rng.getrandbits(48) | 0xFFC000000000, rng.getrandbits(48) & 0x0000FFFFFFFF]
                     for p in pay:
                         fr.append("%028X" % bits.es_frame(df, rng.randrange(8), rng.getrandbits(24), head | p))
+                    fr.append(fr[-1].lower())
                 yield "frames", {"frames": fr}
             i += 1
     # short DF17/18 frames whose bits 33-37 (inside the parity field) take every value
